@@ -156,7 +156,11 @@ type RawPeer struct {
 	// Block makes reads wait for the other side for as long as it takes
 	// instead of giving up once the rest of the system is quiescent.
 	Block bool
+	WS    bool // Conn is a WebSocket message adaptor, not a TLS layer
 }
+
+// TLS tells whether the peer has upgraded its side to TLS.
+func (p *RawPeer) TLS() bool { return !p.WS && p.Conn != net.Conn(p.Raw) }
 
 func NewRawPeer(c *rt.Conn) *RawPeer { return &RawPeer{Raw: c, Conn: c} }
 
